@@ -847,7 +847,7 @@ impl<'a> Gen<'a> {
         }
         self.depth += 1;
         let l = self.label();
-        let r = match self.rng.below(24) {
+        let r = match self.rng.below(37) {
             0 => format!("{}{} := {} ;", l, self.name(), self.expr()),
             1 => format!("{}{} <= {}{} ;", l, self.name(), self.delay(), self.waveform()),
             2 => format!("{}if {} then {} end if ;", l, self.expr(), self.seq()),
@@ -887,6 +887,19 @@ impl<'a> Gen<'a> {
             20 => format!("{}{} <= force {} ;", l, self.name(), self.expr()),
             21 => format!("{}{} <= release ;", l, self.name()),
             22 => format!("{}with {} select {} := {} when {} , {} when others ;", l, self.expr(), self.name(), self.expr(), self.choices(), self.expr()),
+            23 => format!("{}assert {} severity {} ;", l, self.expr(), *self.rng.pick(&["failure", "error", "warning", "note"])),
+            24 => format!("{}report {} severity {} ;", l, self.expr(), self.expr()),
+            25 => format!("{}next {} when {} ;", l, *self.rng.pick(&["", "lp"]), self.expr()),
+            26 => format!("{}case ? {} is when {} => {} when others => null ; end case ? ;", l, self.expr(), self.choices(), self.seq()),
+            27 => format!("{}wait for {} ;", l, self.expr()),
+            28 => format!("{}return ;", l),
+            29 => format!("{}{} <= {} when {} else unaffected ;", l, self.name(), self.expr(), self.expr()),
+            30 => format!("{}{} <= force {} {} when {} else {} ;", l, self.name(), *self.rng.pick(&["", "in", "out"]), self.expr(), self.expr(), self.expr()),
+            31 => format!("{}{} <= release {} ;", l, self.name(), *self.rng.pick(&["", "in", "out"])),
+            32 => format!("{}with {} select ? {} <= {} when {} , {} when others ;", l, self.expr(), self.name(), self.waveform(), self.choices(), self.waveform()),
+            33 => format!("{}with {} select {} <= force {} when {} , {} when others ;", l, self.expr(), self.name(), self.expr(), self.choices(), self.expr()),
+            34 => format!("{}if {} then {} else {} end if {} ;", if l.is_empty() { "il : ".to_string() } else { l.clone() }, self.expr(), self.seq(), self.seq(), ""),
+            35 => format!("{}exit ;", l),
             _ => format!("{}{} := {} ;", l, self.aggregate(), self.expr()),
         };
         self.depth -= 1;
@@ -923,7 +936,7 @@ impl<'a> Gen<'a> {
             return format!("constant {} : integer := 0 ;", self.simple_id());
         }
         self.depth += 1;
-        let r = match self.rng.below(30) {
+        let r = match self.rng.below(49) {
             0 => format!("constant {} : {} := {} ;", self.simple_id(), self.subtype(), self.expr()),
             1 => format!("signal {} , {} : {} ;", self.simple_id(), self.simple_id(), self.subtype()),
             2 => format!("signal {} : {} register := {} ;", self.simple_id(), self.subtype(), self.expr()),
@@ -1010,13 +1023,32 @@ impl<'a> Gen<'a> {
                 self.simple_id(),
                 self.assoc()
             ),
-            _ => format!(
+            29 => format!(
                 "procedure {} is new {} generic map ( {} => {} ) ;",
                 self.simple_id(),
                 self.simple_id(),
                 self.simple_id(),
                 TYPES[self.rng.below(5)]
             ),
+            30 => format!("function {} is new {} [ {} return {} ] generic map ( t => {} ) ;", self.simple_id(), self.simple_id(), TYPES[self.rng.below(5)], TYPES[self.rng.below(5)], TYPES[self.rng.below(5)]),
+            31 => format!("package {} is new work . gp generic map ( {} ) ;", self.simple_id(), *self.rng.pick(&["<>", "default", "t => integer , f => <>", "x => open"])),
+            32 => format!("group {} : {} ( {} , {} ) ;", self.simple_id(), self.simple_id(), self.simple_id(), *self.rng.pick(&["b", "'c'", "x . y"])),
+            33 => format!("group {} is ( signal , label <> ) ;", self.simple_id()),
+            34 => format!("disconnect {} : {} after {} ;", *self.rng.pick(&["s", "all", "others", "a , b"]), TYPES[self.rng.below(5)], self.expr()),
+            35 => format!("for {} : {} use entity work . {} ( {} ) generic map ( {} ) port map ( {} ) ;", *self.rng.pick(&["all", "others", "u1 , u2"]), self.simple_id(), self.simple_id(), self.simple_id(), self.assoc(), self.assoc()),
+            36 => format!("for all : {} use configuration work . cfg ; end for ;", self.simple_id()),
+            37 => format!("subtype {} is {} ( {} ) ( {} ) ;", self.simple_id(), self.simple_id(), self.range(), *self.rng.pick(&["open", "0 to 1", "x ' range"])),
+            38 => format!("subtype {} is {} ( {} ( {} ) , {} ( open ) ) ;", self.simple_id(), self.simple_id(), self.simple_id(), self.range(), self.simple_id()),
+            39 => format!("use work . {} . {} , ieee . std_logic_1164 . {} ;", self.simple_id(), *self.rng.pick(&["\"+\"", "'a'", "all", "\"and\""]), *self.rng.pick(&["all", "std_logic", "\"=\""])),
+            40 => format!("attribute {} of {} : {} is {} ;", self.simple_id(), *self.rng.pick(&["a , b , c", "\"+\" [ integer , integer return integer ] , f", "all", "'0' , '1'"]), *self.rng.pick(&["signal", "function", "literal", "variable"]), self.expr()),
+            41 => format!("signal {} : {} bus := {} ;", self.simple_id(), self.subtype(), self.expr()),
+            42 => format!("function {} parameter ( {} ) return {} ;", *self.rng.pick(&["f", "\"-\"", "g_2"]), self.iface_list(), TYPES[self.rng.below(5)]),
+            43 => format!("procedure {} parameter ( {} ) ;", self.simple_id(), self.iface_list()),
+            44 => format!("procedure {} generic ( type t ; n : natural := 3 ) parameter ( x : t ) ;", self.simple_id()),
+            45 => format!("function {} generic ( type t ) generic map ( t => bit ) ( x : t ) return t ;", self.simple_id()),
+            46 => format!("alias {} is {} ;", *self.rng.pick(&["a2", "'z'", "\"or\""]), self.name()),
+            47 => format!("type {} is array ( {} ' range ( 1 ) , {} range <> ) of {} ;", self.simple_id(), self.simple_id(), TYPES[self.rng.below(2)], self.subtype()),
+            _ => format!("file {} , {} : {} ;", self.simple_id(), self.simple_id(), self.simple_id()),
         };
         self.depth -= 1;
         r
@@ -1027,7 +1059,7 @@ impl<'a> Gen<'a> {
         }
         self.depth += 1;
         let l = self.label();
-        let r = match self.rng.below(22) {
+        let r = match self.rng.below(30) {
             0 => format!("{}{} <= {}{} ;", l, self.name(), self.delay(), self.waveform()),
             1 => format!(
                 "{}{} <= {}{} when {} else {} when {} else {} ;",
@@ -1128,6 +1160,16 @@ impl<'a> Gen<'a> {
             ),
             17 => format!("{}{} <= {} ;", l, self.aggregate(), self.expr()),
             18 => format!("{}postponed {} <= {} ;", l, self.name(), self.expr()),
+            19 => format!("{}assert {} severity {} ;", l, self.expr(), *self.rng.pick(&["failure", "error", "note"])),
+            20 => format!("{}postponed assert {} severity {} ;", if l.is_empty() { "al : ".to_string() } else { l.clone() }, self.expr(), self.expr()),
+            21 => format!("{}{} <= guarded {} ;", l, self.name(), self.waveform()),
+            22 => format!("{}postponed {} ( {} ) ;", l, self.simple_id(), self.assoc()),
+            23 => format!("{}process ( {} ) is begin {} end postponed process ;", if self.rng.chance(1, 2) { "postponed " } else { "" }, self.name(), self.seq()),
+            24 => format!("u_{} : component {} ;", self.rng.below(9), self.simple_id()),
+            25 => format!("u_{} : {} port map ( {} => {} , {} ( {} ) => {} ( {} ) , {} => open ) ;", self.rng.below(9), self.simple_id(), self.simple_id(), self.expr(), self.simple_id(), self.simple_id(), self.simple_id(), self.expr(), self.name()),
+            26 => format!("g_{} : if l1 : {} generate {} end l1 ; else l2 : generate {} end l2 ; end generate g_x ;", self.rng.below(9), self.expr(), self.conc(), self.conc()).replace("g_x", ""),
+            27 => format!("{}{} <= {} when {} else {} ;", l, self.aggregate(), self.waveform(), self.expr(), self.waveform()),
+            28 => format!("with {} select {} <= guarded transport {} when {} , {} when others ;", self.expr(), self.aggregate(), self.waveform(), self.choices(), self.waveform()),
             _ => format!("{}{} <= {} ;", l, self.name(), self.expr()),
         };
         self.depth -= 1;
